@@ -29,6 +29,12 @@ class OutOfSubset(Exception):
     pass
 
 
+class NeedFork(Exception):
+    """Raised inside eval_merged when the computation has to decide (and remember) a fact about the pre-state, such as
+    whether an optional attribute was set at entry: merging would evaluate the alternatives on shared object state and
+    silently keep only the first; the caller's path is forked instead."""
+
+
 class Raised(Exception):
     def __init__(self, exc, site=None):
         self.exc = exc
@@ -337,7 +343,7 @@ class Engine:
                     results.append((list(self.pc[base_len:]), v))
                 except PathEnd:
                     pass
-                except (Raised, ReturnEx, BreakEx, ContinueEx):
+                except (Raised, ReturnEx, BreakEx, ContinueEx, NeedFork):
                     ok = False
                 for k, val in self.fresh_ctr.items():
                     if val > max_ctr.get(k, 0):
@@ -2069,6 +2075,8 @@ class Engine:
             ty = ty[6:]
         if ty.startswith("maybe:"):
             ty = ty[6:]
+            if getattr(self, "merge_depth", 0) > 0:
+                raise NeedFork()
             isset = z3.Bool(self.fresh_name("%s_has_%s" % (obj.name, attr)))
             if not self.branch(isset):
                 obj.entry[attr] = UNSET
